@@ -12,6 +12,7 @@ CHECKS = {
         "assumptions": EXPLORATION_ASSUMPTIONS + ["expected components are computed from the generator's structured value by a reference printer, never by re-parsing"],
         "legs": [
             {"test": "TestC01_Regress", "quick": {"timeout": "5m"}, "thorough": {"timeout": "5m"}},
+            {"test": "TestC01_Concurrent", "quick": {"checks": 3000, "timeout": "10m"}, "thorough": {"checks": 30000, "shards": 2, "timeout": "30m"}},
             {"test": "TestC01", "quick": {"checks": 60000, "timeout": "10m"},
              "thorough": {"checks": 250000, "shards": 8, "timeout": "60m"}},
         ],
